@@ -21,13 +21,13 @@ class ModelDiverges(Exception):
 
 
 class CoroRef:
-    DEFAULTS = {"marker": 0, "acc": 0, "q": 0, "r": 0, "nd": None, "nr": 3, "orr": 0, "ps": 5}
-    NORESET = {"nr"}
+    DEFAULTS = {"marker": 0, "acc": 0, "q": 0, "r": 0, "nd": None, "nr": 3, "orr": 0, "ps": 5, "rx": 6, "nx": 9}
+    NORESET = {"nr", "nx"}  # nx: member of a record created with std.NoresetSignal
 
     def __init__(self, prog):
         self.prog = prog
         rst = prog.get("reset") or {}
-        self.OUTS = ("marker", "acc", "q", "r") + (("nd", "nr") if rst.get("extra_ports") else ()) + (("orr",) if rst.get("on_reset") else ()) + (("ps",) if prog.get("push") else ())
+        self.OUTS = ("marker", "acc", "q", "r") + (("nd", "nr") if rst.get("extra_ports") else ()) + (("orr",) if rst.get("on_reset") else ()) + (("ps",) if prog.get("push") else ()) + (("rx", "nx") if rst.get("records") else ())
         self.on_reset = bool(rst.get("on_reset"))
         self.subs = {s["name"]: s["body"] for s in prog["subs"]}
         self.var_init = dict(prog["vars"])
